@@ -217,10 +217,37 @@ func (c *Cache) refreshIfRequired(force bool) (bool, error) {
 	// We need to refresh if
 	// - it's forced by an explicit call to Refresh() in manual mode
 	// - a missing Spec dir appears (added to watch) in auto-refresh mode
-	if force || (c.autoRefresh && c.watch.update(c.dirErrors)) {
+	// - we have cached content from a Spec dir we are not watching
+	if force || (c.autoRefresh && (c.watch.update(c.dirErrors) || c.hasUnwatchedContent())) {
 		return true, c.refresh()
 	}
 	return false, nil
+}
+
+// hasUnwatchedContent returns true if the cache has Specs or Spec errors
+// from a Spec directory which we are not watching. That happens if the
+// directory appears after we failed to watch it but before we scan it.
+// Changes to such a directory go unnoticed, so we need to rescan it.
+func (c *Cache) hasUnwatchedContent() bool {
+	for dir, watched := range c.watch.tracked {
+		if watched {
+			continue
+		}
+		dir = filepath.Clean(dir)
+		for _, specs := range c.specs {
+			for _, spec := range specs {
+				if filepath.Dir(spec.GetPath()) == dir {
+					return true
+				}
+			}
+		}
+		for path := range c.errors {
+			if filepath.Dir(path) == dir {
+				return true
+			}
+		}
+	}
+	return false
 }
 
 // InjectDevices injects the given qualified devices to an OCI Spec. It
